@@ -244,8 +244,9 @@ META = {
    level_text='Proved in Coq: every failure of open / fstat / read on a listed or stray object is the result of verify_path (never success, never "absent"; '
               'only ENOENT means absent, only ENXIO/EOPNOTSUPP mean "exists, not opened"); the same for update_entry_for_path. Through the whole directory verification: when it returns, with any handler, '
               'every directory the walk reaches was listed and inspected without error and the per-object check of every found file and of every entry of the merged dictionary returned an answer, not an error '
-              '(C06_walk_hides_no_error), so a found file that cannot be opened makes the verification end with that error (C06_unreadable_found_file_fails_the_walk; Proofs/WalkComplete.v). PARTIAL: propagation through '
-              'Manifest loading and the update walk is the error monad of the model, validated by persistent and transient fault injection; "update has written nothing" is checked in C10.',
+              '(C06_walk_hides_no_error), so a found file that cannot be opened makes the verification end with that error (C06_unreadable_found_file_fails_the_walk; Proofs/WalkComplete.v). The update: when update_entries_for_directory returns, every directory its walk reached was listed and inspected without error, '
+              'the first listing error ends the walk with that error (C06_update_lists_every_directory, C06_update_listing_error; Proofs/UpdListed.v), and the operation cannot write (its result is a loader, not a file system). PARTIAL: propagation through '
+              'Manifest loading is the error monad of the model, validated by persistent and transient fault injection; "update has written nothing" is also checked on the real file system (C10, and the snapshot comparison of the fault engines).',
    level_note='Faults are persistent per (primitive, inode); transient faults are not modelled.'),
  'C07': dict(engine='coq+tree', design_ref='DESIGN.md section 5 C07',
    technique='Coq induction over the walk (log only grows, result is the conjunction of all verdicts) + complete call-log comparison',
